@@ -7,6 +7,7 @@ def run(ctx):
     satlayer.rule_clause_store(ctx)
     satlayer.rule_verdict_tables(ctx)
     satlayer.rule_model_width(ctx)
+    satlayer.rule_variable_count_monotone(ctx)
     ctx.assume("the embedded CaDiCaL solver and the external program decide satisfiability correctly (trusted)")
     ctx.assume("rustc's MIR and resolved callees")
     return (
